@@ -450,7 +450,7 @@ fn agg_json(a: &Agg) -> Value {
 }
 
 pub fn worker(wi: usize, wn: usize, tier: &str) {
-    let bound: usize = std::env::var("C08_BOUND").ok().and_then(|s| s.parse().ok()).unwrap_or(if tier == "thorough" { 2 } else { 1 });
+    let bound: usize = std::env::var("C08_BOUND").ok().and_then(|s| s.parse().ok()).unwrap_or(if tier == "thorough" { 3 } else { 1 });
     let cbound: usize = std::env::var("C08_CBOUND").ok().and_then(|s| s.parse().ok()).unwrap_or(2);
     let mut agg = Agg::default();
     let cat = catalogue();
@@ -539,7 +539,7 @@ pub fn run(tier: &str, replay: Option<&str>) -> i32 {
         }
         rep.report_bag(&r["violations"]);
     }
-    let bound: usize = std::env::var("C08_BOUND").ok().and_then(|s| s.parse().ok()).unwrap_or(if tier == "thorough" { 2 } else { 1 });
+    let bound: usize = std::env::var("C08_BOUND").ok().and_then(|s| s.parse().ok()).unwrap_or(if tier == "thorough" { 3 } else { 1 });
     ev.set("states", tot["points"]);
     ev.set("transitions", tot["points"]);
     ev.set("traces_validated_against_impl", tot["executions"]);
